@@ -175,6 +175,11 @@ func (v logView) lastTerm() uint64 {
 // ---------- hooks ----------
 
 func (m *Monitors) onPanic(n *Node, kind, out string) {
+	// C18: a range or term query of the combined log view must answer ErrCompacted / ErrUnavailable
+	// outside the available range, not run into a bounds assertion
+	if strings.Contains(out, "out_of_bound") || strings.Contains(out, "slice[") {
+		m.report("C18", "", "node %d: a log view query ran into a bounds assertion in %s: %.160s", n.id, kind, out)
+	}
 	class := ""
 	switch {
 	case strings.Contains(out, "removed_all_voters") || strings.Contains(out, "more_than_one_voter") ||
@@ -645,6 +650,19 @@ func (m *Monitors) afterOp(n *Node, kind string) {
 		}
 	}
 	m.viewBefore = ""
+
+	// C15 / C17: the election timer of a node that cannot campaign (a learner, a node outside the
+	// configuration, a node with a snapshot pending) is never restarted by a tick: it keeps growing,
+	// so that the CheckQuorum lease of a leader the node no longer hears from runs out
+	if kind == "tick" && prev != nil && d.State != raft.StateLeader && prev.State == d.State && prev.Term == d.Term &&
+		d.ElectionElapsed < prev.ElectionElapsed {
+		pr, ok := d.Progress[n.id]
+		promotable := ok && !pr.IsLearner && d.UnstableSnapshot == nil && !d.UnstableSnapshotInProgress
+		m.hit("C15.election-timer-restarted-by-tick")
+		if !promotable {
+			m.report("C15", "", "node %d cannot campaign (learner, not a member or snapshot pending) but a tick restarted its election timer (%d -> %d): it keeps renewing the lease of a leader it no longer hears from", n.id, prev.ElectionElapsed, d.ElectionElapsed)
+		}
+	}
 
 	// C17: a granted pre-vote response is an answer to a pre-campaign; at a node that is not (or no
 	// longer) a pre-candidate it changes neither term nor leader
